@@ -5,7 +5,7 @@
     (bp.Snapshots / bp.Cluster / GetRankers around the status: [mnode] is the code as it is, with the
     ranking cut at the in-memory BPCOUNT; F24 repaired), Dpos/Protocol.v. *)
 From Coq Require Import ZArith List Bool.
-From Verif Require Import Dpos.Lib Dpos.LibProofs Dpos.LibOnMain Dpos.LibQuorum Dpos.LibQuorumHist Dpos.LibRestart Dpos.LibExamples Dpos.Election Dpos.ElectionProofs Dpos.ElectionMemProofs Dpos.AgreementLock Dpos.LibFail Dpos.LibFailProofs Dpos.LibLpb Dpos.AgreementObstacles
+From Verif Require Import Dpos.Lib Dpos.LibProofs Dpos.LibOnMain Dpos.LibQuorum Dpos.LibQuorumHist Dpos.LibRestart Dpos.LibExamples Dpos.Election Dpos.ElectionProofs Dpos.ElectionMemProofs Dpos.AgreementLock Dpos.LibFail Dpos.LibFailProofs Dpos.LibLpb Dpos.AgreementObstacles Dpos.LibCrash Dpos.LibCrashProofs
   Dpos.Protocol Dpos.ProtocolInv Dpos.ProtocolProofs.
 Import ListNotations.
 Open Scope Z_scope.
@@ -109,6 +109,44 @@ Theorem C08_lib_monotone_failed_reorg_refuted :
     lib_no (run_f bad (init_node size self) evs).
 Proof. exact lib_monotone_failed_reorg_refuted. Qed.
 Print Assumptions C08_lib_monotone_failed_reorg_refuted.
+
+(** * Write units: what is saved with the chain tip; crash inside a reorganisation *)
+
+(** After a connected block or a reorganisation the status saved with the chain tip is the running
+    status: a restart right after it (before any further block) restores the running LIB and
+    recomputes from the running proposal map. *)
+Theorem C08_saved_current_after_commit : forall nd blk nd' o,
+  deliver nd blk = (nd', o) -> o = OConnected \/ o = OReorg ->
+  nd_saved nd' = Some (save (st_ls (nd_st nd'))).
+Proof. exact saved_current_after_commit. Qed.
+Print Assumptions C08_saved_current_after_commit.
+
+Theorem C08_restart_after_reorg_equals_running : forall nd blk nd' o,
+  deliver nd blk = (nd', o) -> o = OConnected \/ o = OReorg ->
+  let cur := st_ls (nd_st nd') in
+  st_ls (nd_st (restart nd')) =
+    load (main_get (nd_main nd')) (mkLS (ls_prpsd cur) (ls_lib cur) (ls_lpb cur) [] (confirms_required (nd_size nd')) (nd_self nd'))
+         (k_no (st_best (nd_st nd'))) /\
+  ls_lib (st_ls (nd_st (restart nd'))) = ls_lib cur.
+Proof. exact restart_after_reorg_equals_running. Qed.
+Print Assumptions C08_restart_after_reorg_equals_running.
+
+(** A crash after the reorg marker is written and before anything is swapped is recovered... *)
+Theorem C08_recovery_point2_not_vetoed : forall nd blk,
+  sv_inv nd -> snd (deliver nd blk) = OReorg -> snd (deliver_crash 2 nd blk) = CRecovered.
+Proof. exact recovery_point2_not_vetoed. Qed.
+Print Assumptions C08_recovery_point2_not_vetoed.
+
+(** ... but a crash between the swap (new mapping + new status in one bulk) and the deletion of
+    the marker is not: the mapping is put back to the old chain, the saved status is the new one,
+    and its LIB vetoes the recovery (known finding F40). *)
+Theorem C08_recovery_vetoed_refuted :
+  exists size self evs tip,
+    Forall ev_ok evs /\
+    snd (deliver_crash 3 (run (init_node size self) evs) tip) = CRecoverVeto /\
+    lib_on_main (fst (deliver_crash 3 (run (init_node size self) evs) tip)) = false.
+Proof. exact recovery_vetoed_refuted. Qed.
+Print Assumptions C08_recovery_vetoed_refuted.
 
 (** calcLIB: at least n' - (n'-1)/3 of the n' proposals are at or above the computed LIB. *)
 Theorem C08_lib_supported_by_two_thirds : forall p l,
@@ -288,6 +326,14 @@ Theorem C08_lpb_covers_own_blocks : forall size self evs b,
   In b (nd_main nd) -> k_bp b = self -> k_no b <= ls_lpb (st_ls (nd_st nd)).
 Proof. exact lpb_covers_own_blocks. Qed.
 Print Assumptions C08_lpb_covers_own_blocks.
+
+(** A wrapped `no - lpbNo` (lpbNo above the block number) gives an empty window. *)
+Theorem C08_underflow_window_empty : forall no lpb bp left_ c,
+  0 <= no < lpb -> lpb < 9223372036854775808 ->
+  let last := mkC (mkB 0 no (u64 (no - lpb))) bp left_ in
+  in_window (win_min last) (win_max last) c = false.
+Proof. exact underflow_window_empty. Qed.
+Print Assumptions C08_underflow_window_empty.
 
 (** * Block-producer election (bp/cluster.go around Status.Update) *)
 
